@@ -85,4 +85,93 @@ theorem stepF_loop_writer (H : Nat) (env : Nat → Nat) (cont : Bool) (k : Kern)
       exact ⟨hs, h1.symm⟩
   · simp [hs] at h1
 
+/-! ## Aggregation of read depths (`_create_depth_list`) -/
+
+def envv (env : Nat → Nat) : Option Nat → Nat
+  | some v => env v
+  | none => 0
+
+theorem foldl_max_eq (H : Nat) (env : Nat → Nat) : ∀ (ds : List HaloDepth) (m : Nat),
+    ds.foldl (fun m d => max m (evalDepth H env d)) m =
+      max m (ds.foldl (fun m d => max m (evalDepth H env d)) 0)
+  | [], m => by simp
+  | x :: xs, m => by
+    simp only [List.foldl_cons]
+    rw [foldl_max_eq H env xs (max m _), foldl_max_eq H env xs (max 0 _)]
+    omega
+
+theorem evalDepths_cons (H : Nat) (env : Nat → Nat) (d : HaloDepth) (ds : List HaloDepth) :
+    evalDepths H env (d :: ds) = max (evalDepth H env d) (evalDepths H env ds) := by
+  unfold evalDepths
+  simp only [List.foldl_cons]
+  rw [foldl_max_eq]
+  omega
+
+theorem evalDepth_plain (H : Nat) (env : Nat → Nat) (l : Nat) (v : Option Nat) (a : Bool) :
+    evalDepth H env ⟨l, v, false, false, a⟩ = l + envv env v := by
+  cases v <;> simp [evalDepth, envv]
+
+theorem mergeDepth_mono (H : Nat) (env : Nat → Nat) (v : Option Nat) (l : Nat) :
+    ∀ acc, evalDepths H env acc ≤ evalDepths H env (mergeDepth acc v l)
+  | [] => by simp [evalDepths]
+  | d :: ds => by
+    simp only [mergeDepth]
+    split
+    · rw [evalDepths_cons, evalDepths_cons]
+      have : evalDepth H env d ≤ evalDepth H env { d with lit := max d.lit l } := by
+        obtain ⟨dl, dv, dm, dm1, da⟩ := d
+        cases dm <;> cases dm1 <;> simp [evalDepth] <;> omega
+      omega
+    · rw [evalDepths_cons, evalDepths_cons]
+      have := mergeDepth_mono H env v l ds
+      omega
+
+/-- entries that are not the `max_depth-1` entry are plain (literal + variable) entries -/
+def AccNorm (acc : List HaloDepth) : Prop := ∀ e ∈ acc, e.maxM1 = false → e.maxDepth = false
+
+theorem mergeDepth_norm (v : Option Nat) (l : Nat) :
+    ∀ acc, AccNorm acc → AccNorm (mergeDepth acc v l)
+  | [], _ => by
+    simp only [mergeDepth]
+    split <;> simp [AccNorm]
+  | d :: ds, h => by
+    simp only [mergeDepth]
+    split
+    · intro e he hm
+      simp at he
+      rcases he with rfl | he
+      · exact h d (by simp) hm
+      · exact h e (by simp [he]) hm
+    · intro e he hm
+      simp at he
+      rcases he with rfl | he
+      · exact h e (by simp) hm
+      · exact mergeDepth_norm v l ds (fun e he' => h e (by simp [he'])) e he hm
+
+theorem mergeDepth_new (H : Nat) (env : Nat → Nat) (v : Option Nat) (l : Nat) :
+    ∀ acc, AccNorm acc → l + envv env v ≤ evalDepths H env (mergeDepth acc v l)
+  | [], _ => by
+    simp only [mergeDepth]
+    split
+    · rw [evalDepths_cons, evalDepth_plain]; omega
+    · rename_i hn
+      cases v <;> simp_all [envv]
+  | d :: ds, h => by
+    simp only [mergeDepth]
+    split
+    · rename_i hc
+      simp at hc
+      have hm := h d (by simp) hc.1
+      rw [evalDepths_cons]
+      obtain ⟨dl, dv, dm, dm1, da⟩ := d
+      simp at hm hc
+      obtain ⟨rfl, rfl⟩ := hc
+      subst hm
+      dsimp only
+      rw [evalDepth_plain]
+      omega
+    · rw [evalDepths_cons]
+      have := mergeDepth_new H env v l ds (fun e he' => h e (by simp [he']))
+      omega
+
 end C22
